@@ -29,14 +29,14 @@ pub struct RunResult {
     pub skipped: u64,
 }
 
-/// properties a step kind is evidence for
+/// properties a step kind is evidence for (a result that differs from the model violates these)
 pub fn owners(st: &Step) -> Vec<&'static str> {
     match st {
         Step::Dec { g, .. } => {
             if *g == 0 {
-                vec!["C03", "C15"]
+                vec!["C03"]
             } else {
-                vec!["C06", "C15"]
+                vec!["C06"]
             }
         }
         Step::Const { g, .. }
@@ -55,7 +55,7 @@ pub fn owners(st: &Step) -> Vec<&'static str> {
             }
         }
         Step::Cof { .. } | Step::Pred { .. } => vec!["C03"],
-        Step::Uni { .. } => vec!["C06", "C15"],
+        Step::Uni { .. } => vec!["C06"],
         Step::Batch { .. } | Step::Rerep { .. } | Step::FromEd { .. } => vec!["C06"],
         Step::Mul { .. }
         | Step::MulBase { .. }
@@ -65,15 +65,38 @@ pub fn owners(st: &Step) -> Vec<&'static str> {
         | Step::Msm { .. }
         | Step::Pre { .. } => vec!["C04"],
         Step::ToMont { .. } => vec!["C07"],
-        Step::XKey { .. } | Step::XDh { .. } | Step::XRaw { .. } | Step::SConv { .. } | Step::MEq { .. } => vec!["C07", "C15"],
-        Step::MMul { .. } | Step::MBits { .. } => vec!["C07", "C04", "C15"],
-        Step::MToEd { .. } => vec!["C07", "C15"],
+        Step::XKey { .. } | Step::XDh { .. } | Step::XRaw { .. } | Step::SConv { .. } | Step::MEq { .. } => vec!["C07"],
+        Step::MMul { .. } | Step::MBits { .. } => vec!["C07", "C04"],
+        Step::MToEd { .. } => vec!["C07"],
         Step::SKey { .. } | Step::Sign { .. } => vec!["C08"],
-        Step::Ver { .. } => vec!["C09", "C08", "C15"],
-        Step::BQ { .. } | Step::BFlush { .. } => vec!["C13", "C08", "C15"],
+        Step::Ver { .. } => vec!["C09", "C08"],
+        Step::BQ { .. } | Step::BFlush { .. } => vec!["C13", "C08"],
         Step::Decode { .. } => vec!["C15"],
-        Step::Disk { .. } | Step::Load { .. } | Step::SimFmt { .. } => vec!["C16", "C15"],
+        Step::Disk { .. } | Step::Load { .. } | Step::SimFmt { .. } => vec!["C16"],
     }
+}
+
+/// does the step hand untrusted bytes to the library (a panic is then a C15 violation)?
+pub fn untrusted(st: &Step) -> bool {
+    matches!(
+        st,
+        Step::Dec { .. }
+            | Step::Uni { .. }
+            | Step::XDh { .. }
+            | Step::XRaw { .. }
+            | Step::MMul { .. }
+            | Step::MBits { .. }
+            | Step::MToEd { .. }
+            | Step::MEq { .. }
+            | Step::SKey { .. }
+            | Step::Ver { .. }
+            | Step::BQ { .. }
+            | Step::BFlush { .. }
+            | Step::Decode { .. }
+            | Step::Disk { .. }
+            | Step::Load { .. }
+            | Step::SimFmt { .. }
+    )
 }
 
 fn class_of(step: &Step, label: &str) -> String {
@@ -139,6 +162,9 @@ fn one(w: &mut World, i: usize, st: &Step, c: &mut Counters) -> Result<Option<(u
             if cfg!(debug_assertions) && !p.contains(&"C11".to_string()) {
                 p.push("C11".into());
             }
+            if untrusted(st) && !p.contains(&"C15".to_string()) {
+                p.push("C15".into());
+            }
             Err(Violation { props: p, step: i, step_kind: st.kind().into(), class: class_of(st, "panic"), detail: format!("panic: {}", msg) })
         }
         Ok(Out::Skip) => Err(Violation {
@@ -173,6 +199,11 @@ fn one(w: &mut World, i: usize, st: &Step, c: &mut Counters) -> Result<Option<(u
 
 fn first_diff_label(r: &Obs, m: &Obs) -> String {
     for i in 0..r.0.len().max(m.0.len()) {
+        if let (Some(a), Some(b)) = (r.0.get(i), m.0.get(i)) {
+            if a.0 == b.0 && b.1 == crate::env::WILDCARD {
+                continue;
+            }
+        }
         if r.0.get(i) != m.0.get(i) {
             return r.0.get(i).or(m.0.get(i)).map(|x| x.0.to_string()).unwrap_or_default();
         }
